@@ -104,6 +104,19 @@ impl Session {
         }
     }
 
+    /// doubled-key bound point: 2k = key k, 2k+1 = a byte string strictly between k and k+1
+    pub fn bound_key(&self, x: i64) -> Vec<u8> {
+        if x % 2 == 0 {
+            self.conc.key(x / 2)
+        } else if x < 2 {
+            vec![0u8]
+        } else {
+            let mut k = self.conc.key((x - 1) / 2);
+            k.push(1);
+            k
+        }
+    }
+
     /// real table id at position (level, run (1-based), index (1-based))
     fn table_at(&self, pos: &Value) -> Option<u64> {
         let lvl = pos.get(0)?.as_u64()? as usize;
@@ -118,7 +131,7 @@ impl Session {
     /// Executes one operation. Returns (ret, extra info to log).
     pub fn exec(&mut self, op: &Value) -> (String, Value) {
         let kind = op["op"].as_str().unwrap_or("").to_string();
-        let mut info = json!({});
+        let mut info = json!({"s0": self.seq.get()});
         *self.last_choice.lock().expect("lock") = None;
         let r = catch_unwind(AssertUnwindSafe(|| -> Result<(), String> {
             match kind.as_str() {
@@ -199,6 +212,41 @@ impl Session {
                     self.t()
                         .major_compact(target, Self::seqno_arg(w))
                         .map_err(|e| format!("err:{e:?}"))
+                }
+                "droprange" => {
+                    use std::ops::Bound;
+                    let mk = |b: &Value| -> Result<Bound<Vec<u8>>, String> {
+                        let kind = b.get(0).and_then(Value::as_str).ok_or("bound kind")?;
+                        let x = b.get(1).and_then(Value::as_i64).ok_or("bound x")?;
+                        let key = self.bound_key(x);
+                        Ok(match kind {
+                            "I" => Bound::Included(key),
+                            "E" => Bound::Excluded(key),
+                            _ => Bound::Unbounded,
+                        })
+                    };
+                    let lo = mk(&op["lo"])?;
+                    let hi = mk(&op["hi"])?;
+                    self.t()
+                        .drop_range::<Vec<u8>, _>((lo, hi))
+                        .map_err(|e| format!("err:{e:?}"))
+                }
+                "clear" => self.t().clear().map_err(|e| format!("err:{e:?}")),
+                "ingest" => {
+                    let mut ing = self.t().ingestion().map_err(|e| format!("err:{e:?}"))?;
+                    for it in op["items"].as_array().ok_or("items")? {
+                        let k = self.conc.key(it["k"].as_i64().ok_or("k")?);
+                        let r = match it["t"].as_str().ok_or("t")? {
+                            "V" => ing.write(k, self.conc.val(it["v"].as_i64().ok_or("v")?)),
+                            "T" => ing.write_tombstone(k),
+                            "W" => ing.write_weak_tombstone(k),
+                            x => return Err(format!("bad type {x}")),
+                        };
+                        r.map_err(|e| format!("err:{e:?}"))?;
+                    }
+                    ing.finish().map_err(|e| format!("err:{e:?}"))?;
+                    info["g"] = json!(self.seq.get().saturating_sub(1));
+                    Ok(())
                 }
                 "reopen" => {
                     self.snaps.clear();
@@ -355,6 +403,7 @@ impl Session {
     pub fn observe(&self) -> Value {
         let mut gets = vec![];
         let mut scans = vec![];
+        let mut notes: Vec<String> = vec![];
         for s in self.read_points() {
             let sq = Self::seqno_arg(s);
             let mut row = vec![];
@@ -377,11 +426,18 @@ impl Session {
                         if consistent {
                             json!(mv)
                         } else {
-                            json!(format!("inconsistent:get={mv},contains={c},size={z:?}"))
+                            notes.push(format!("S={s} k={k} inconsistent:get={mv},contains={c},size={z:?}"));
+                            json!(-4)
                         }
                     }
-                    Ok(other) => json!(format!("err:{other:?}")),
-                    Err(e) => json!(format!("panic:{}", panic_msg(&e))),
+                    Ok(other) => {
+                        notes.push(format!("S={s} k={k} err:{other:?}"));
+                        json!(-2)
+                    }
+                    Err(e) => {
+                        notes.push(format!("S={s} k={k} panic:{}", panic_msg(&e)));
+                        json!(-3)
+                    }
                 };
                 row.push(v);
             }
@@ -397,8 +453,14 @@ impl Session {
             }));
             let sc = match r {
                 Ok(Ok(v)) => json!(v),
-                Ok(Err(e)) => json!(e),
-                Err(e) => json!(format!("panic:{}", panic_msg(&e))),
+                Ok(Err(e)) => {
+                    notes.push(format!("S={s} scan {e}"));
+                    json!([[-2, -2]])
+                }
+                Err(e) => {
+                    notes.push(format!("S={s} scan panic:{}", panic_msg(&e)));
+                    json!([[-3, -3]])
+                }
             };
             scans.push(json!({"S": s, "r": sc}));
         }
@@ -411,6 +473,7 @@ impl Session {
                 "all": opt(self.t().get_highest_seqno()),
             },
             "tables": self.t().table_count(),
+            "notes": notes,
         })
     }
 }
